@@ -144,11 +144,68 @@ fn block_boundary(ctx: &mut Ctx) {
     }
 }
 
+/// The compressor keeps the first 257 bytes of its 32 KiB ring duplicated past the ring's end so
+/// that match comparison can run over the end without wrapping.  This family aims at that copy:
+/// a call's input ends `cut` bytes (1..=257) after a multiple of 32768 with no flush, so the next
+/// call resumes filling the ring just past its start; later the data repeats a string whose
+/// earlier occurrence runs over the ring's end and continues with the bytes that sat at the same
+/// ring offsets one lap earlier (what a stale duplicate would hold) instead of the true ones.
+fn mirror_cut_case(ctx: &mut Ctx, cfg: &Cfg, data: &[u8], cut: usize) {
+    use miniz_oxide::deflate::core::{compress, TDEFLFlush, TDEFLStatus};
+    let id = ctx.id();
+    ctx.eval(fnv(data) ^ (cut as u64) ^ 0x3117);
+    ctx.count("mirror_cut_cases");
+    let replay = format!("MIRROR {} cut={} in={}", cfg.describe(), cut, hex(data));
+    let mut c = cfg.make();
+    let mut z: Vec<u8> = vec![];
+    let mut done = false;
+    let r = std::panic::catch_unwind(std::panic::AssertUnwindSafe(|| {
+        let mut ipos = 0usize;
+        for _ in 0..1000 { if ipos >= cut { break; }
+            let mut o = vec![0u8; 100_000];
+            let (st, i, w) = compress(&mut c, &data[ipos..cut], &mut o, TDEFLFlush::None);
+            z.extend_from_slice(&o[..w]); ipos += i; if st != TDEFLStatus::Okay { return Err(format!("first piece {:?}", st)); } }
+        for _ in 0..1000 {
+            let mut o = vec![0u8; 100_000];
+            let (st, i, w) = compress(&mut c, &data[ipos..], &mut o, TDEFLFlush::Finish);
+            z.extend_from_slice(&o[..w]); ipos += i;
+            if st == TDEFLStatus::Done { done = true; break; } if st != TDEFLStatus::Okay { return Err(format!("finish loop {:?}", st)); } }
+        Ok(())
+    }));
+    match r { Err(_) => { ctx.violation(id, "panic", format!("panic [{}] cut={}", cfg.describe(), cut), replay); return; }
+              Ok(Err(m)) => { ctx.violation(id, "status", format!("{} [{}] cut={}", m, cfg.describe(), cut), replay); return; } Ok(Ok(())) => {} }
+    if !done { ctx.violation(id, "progress", format!("not finished [{}] cut={}", cfg.describe(), cut), replay); return; }
+    ctx.line(&format!("ENC id={} rp=MIRROR;cut={} checks=rt modes=- {} in={} comp={}", id, cut, cfg.describe(), hex(data), hex(&z)));
+}
+
+fn mirror_cut(ctx: &mut Ctx) {
+    let cuts: Vec<usize> = if ctx.quick() { vec![1, 2, 3, 4, 5, 6, 7, 8, 100, 256] } else { (1..=12).chain([16usize, 31, 64, 100, 128, 200, 255, 256, 257].into_iter()).collect() };
+    for lap in [1usize, 2] { for &c in &cuts { for &level in &[1u8, 2, 6] {
+        if ctx.quick() && level != 1 && (c + lap) % 3 != 0 { continue; }
+        let base = lap * 32768;
+        let n = base + 8000;
+        let mut d = ctx.rng.bytes(n);
+        // source: `a` true bytes ending at the ring's end, then the `c` true bytes after it
+        let a = ctx.rng.range(3, 60);
+        let q = base + ctx.rng.range(300, 3500);
+        let mut pat: Vec<u8> = d[base - a..base + c].to_vec();
+        // then what sat at ring offsets c.. one lap earlier
+        let stale = ctx.rng.range(1, 40).min(257 - c.min(256));
+        pat.extend_from_slice(&d[base - 32768 + c..base - 32768 + c + stale]);
+        d[q..q + pat.len()].copy_from_slice(&pat);
+        let cfg = Cfg { level, strategy: 0, zlib: ctx.rng.chance(1, 2), wb: 15 };
+        mirror_cut_case(ctx, &cfg, &d, base + c);
+    } } }
+}
+
 pub fn run(ctx: &mut Ctx) {
     if let Some(lines) = ctx.replay_lines.clone() {
         for l in lines { if let Some(rest) = l.strip_prefix("BOUNDARY ") { let kv = crate::kv(rest);
             let cfg = Cfg { level: kv["level"].parse().unwrap(), strategy: kv["strategy"].parse().unwrap(), zlib: kv["fmt"] == "1", wb: kv["wb"].parse().unwrap() };
             boundary_case(ctx, &cfg, &crate::tx::unhex(&kv["in"]), kv["at"].parse().unwrap(), kv["flush"].parse().unwrap(), kv["small"].parse().unwrap()); }
+          if let Some(rest) = l.strip_prefix("MIRROR ") { let kv = crate::kv(rest);
+            let cfg = Cfg { level: kv["level"].parse().unwrap(), strategy: kv["strategy"].parse().unwrap(), zlib: kv["fmt"] == "1", wb: kv["wb"].parse().unwrap() };
+            mirror_cut_case(ctx, &cfg, &crate::tx::unhex(&kv["in"]), kv["cut"].parse().unwrap()); }
           if let Some(rest) = l.strip_prefix("SCHED ") { let kv = crate::kv(rest);
             let cfg = Cfg { level: kv["level"].parse().unwrap(), strategy: kv["strategy"].parse().unwrap(), zlib: kv["fmt"] == "1", wb: kv["wb"].parse().unwrap() };
             case(ctx, &cfg, &crate::tx::unhex(&kv["in"]), "replay", if kv["sink"] == "1" { Sink::Callback } else { Sink::Buf }, kv["tiny"] == "1", kv["seed"].parse().unwrap(), "rt"); } }
@@ -156,6 +213,7 @@ pub fn run(ctx: &mut Ctx) {
     }
     lazy_boundary(ctx);
     block_boundary(ctx);
+    mirror_cut(ctx);
     let n = 260 * ctx.scale;
     for i in 0..n {
         let cfg = if i < 55 { Cfg { level: (i % 11) as u8, strategy: ((i / 11) % 5) as u8, zlib: i % 2 == 0, wb: 15 } } else { Cfg::random(&mut ctx.rng) };
